@@ -24,7 +24,7 @@ def graphs(maxv, maxe):
 
 
 def run(ctx):
-    ctx.stream("leaf", gen.leaf_lines(ctx.rng.fork("leaf"), (3, 4, 5, 6, 7, 8, 9, 10), 2000 if ctx.quick else 100000),
+    ctx.stream("leaf", gen.leaf_lines(ctx.rng.fork("leaf"), (3, 4, 5, 6, 7, 8, 9, 10, 14), 2000 if ctx.quick else 100000),
                "leaf functions (element encoding): compiled C vs. the definition translated from the C text vs. the specification",
                describe=lambda c: gen.LEAF_CODES.get(c, str(c)))
     q = ctx.quick
